@@ -3,6 +3,7 @@ import Driver.Hash
 import Driver.Codec
 import Driver.Seq
 import Driver.HintE
+import Driver.Proto
 
 open Driver
 
@@ -14,6 +15,7 @@ def main (args : List String) : IO UInt32 := do
     | ["codec"] => Driver.CodecEngine.run lines
     | ["seq"] => Driver.Seq.run lines
     | ["hint"] => Driver.HintE.run lines
+    | ["proto"] => Driver.Proto.run lines
     | _ => do IO.eprintln "usage: driver <engine> < trace"; return 2
   IO.println s!"SUMMARY lines={lines.size} checked={rep.checked} diffs={rep.diffs}"
   return 0
